@@ -145,8 +145,11 @@ def strip(e):
         k = e['k']
         if k in ('tmp', 'definit'):
             e = e['e']
-        elif k == 'cast' and e.get('ck') in ('implicit', 'static', 'functional', 'cstyle', 'const') and \
-                e.get('kind') not in ('BitCast', 'LValueBitCast', 'ReinterpretMemberPointer', 'BaseToDerived'):
+        elif k == 'cast' and e.get('ck') == 'implicit':
+            e = e['e']
+        elif k == 'cast' and e.get('ck') in ('static', 'functional', 'cstyle', 'const') and \
+                e.get('kind') not in ('BitCast', 'LValueBitCast', 'ReinterpretMemberPointer', 'BaseToDerived',
+                                      'IntegralToPointer', 'PointerToIntegral'):
             e = e['e']
         elif k == 'ctor' and (e.get('copy') or e.get('move')) and e.get('elidable') and len(e.get('args', [])) == 1:
             e = e['args'][0]
